@@ -81,6 +81,9 @@ var (
 )
 
 // matrixCorpora builds the G-shards family once per process.
+// first members of the ASCII pairs (x, x|0x20) that are not letters
+var matrixPunctPairs = []byte{'@', '[', '\\', ']', '^', '_', '\n', 0x10}
+
 func matrixCorpora(thorough bool) ([]*shardCase, error) {
 	matrixOnce.Do(func() {
 		dir, clean := gen.Scratch("matrix")
@@ -185,6 +188,18 @@ func matrixCorpora(thorough bool) ([]*shardCase, error) {
 			}
 		}
 		add("long", false, long)
+		// ASCII pairs that differ only in bit 0x20 but are not letters ('[' / '{', '\\' / '|', newline / '*', ...):
+		// case folding must not identify them. Patterns of >= 7 runes leave positions that no selected trigram covers.
+		punct := &ref.Repo{Name: "punct/repo", ID: 22, Branches: []string{"HEAD"}}
+		for i, x := range matrixPunctPairs {
+			for j, c := range []byte{x, x | 0x20} {
+				for k, form := range []string{"abc%sdefg", "foo%sbar%sbaz", "%sabcdefg%s"} {
+					content := strings.ReplaceAll(form, "%s", string(c))
+					punct.Docs = append(punct.Docs, &ref.Doc{Name: fmt.Sprintf("p%d-%d-%d.txt", i, j, k), Content: []byte(content + "\n"), Branches: []string{"HEAD"}, Language: "Text"})
+				}
+			}
+		}
+		add("punct", false, punct)
 	})
 	return matrixShards, matrixErr
 }
@@ -243,6 +258,21 @@ func matrixQueries(sc *shardCase, thorough bool) []query.Q {
 				qs = append(qs, &query.And{Children: []query.Q{s, t}}, &query.Or{Children: []query.Q{s, t}})
 			}
 		}
+	case sc.name == "punct":
+		var pats []string
+		for _, x := range matrixPunctPairs {
+			for _, c := range []byte{x, x | 0x20} {
+				for _, form := range []string{"abc%sdefg", "foo%sbar%sbaz", "%sabcdefg", "abcdefg%s", "c%sd"} {
+					pats = append(pats, strings.ReplaceAll(form, "%s", string(c)))
+				}
+			}
+		}
+		qs = append(qs, gen.SubstringAtoms(pats, [][2]bool{{false, true}, {false, false}})...)
+		var res []string
+		for _, p := range pats {
+			res = append(res, gregexp.QuoteMeta(p))
+		}
+		qs = append(qs, gen.RegexpAtoms(res, [][2]bool{{false, true}})...)
 	case sc.name == "long":
 		qs = append(qs, gen.SubstringAtoms([]string{"abc", "éab", "abcabc", "abd", "x", "é", "€y", "c t", "yxé€", "y\nx", "abc tail", "b Éab", "😀", "😀abc", "😀x😀"}, gen.FieldModes)...)
 		qs = append(qs, gen.RegexpAtoms([]string{"abc|abd", "a.c", `\babc\b`, "é€", "tail$", "^xé", "(?:abc){2}", "€y\n", "abc(?s:.*)abd", "abcabc(?s:.)abd", "abc.*abd", "é(?s:.*)tail", "😀+abc", "[😀x]{3}a"}, [][2]bool{{false, true}})...)
